@@ -11,6 +11,7 @@
   of growth steps.  `Reach hash s` = `s` is such a state.
 -/
 import Babylon.Swiss.ConcHist
+import Babylon.Swiss.ConcView
 
 namespace Babylon.Properties.C03
 open Babylon.Core Babylon.Swiss Babylon.Swiss.Conc
@@ -312,6 +313,128 @@ theorem set_chain_grows_by_cas (hash : Nat → Nat) {s : State} (h : Reach hash 
   obtain ⟨hinv, _⟩ := reachable_good h
   exact ⟨hinv.chain.link, hinv.chain.nodup, hinv.chain.head, hinv.later,
     fun s' hst hne => step_chain_by_cas h hst hne⟩
+
+/-! ### publication under weak memory (release/acquire view model, stale reads included) -/
+
+section view
+open Babylon.Core.MemView Babylon.Swiss.ConcView
+variable {L : Type} [DecidableEq L]
+
+/-- **swiss_publication_view.**  In EVERY execution of the view model `Core/MemView.lean`:
+thread `a` writes the value cell `vl` (a plain write, any order `ov`), later stores the tag into a
+control byte `c` — the main byte (`ordStoreMain`) or the mirrored byte (`ordStoreMirror`), the
+orders the translator extracts from `do_emplace`; thread `b` reads that message of `c` with one of
+the 16 relaxed byte loads of the group (`ordGroupLoad`), later executes the fence of `find`
+(`ordFindFence`) or of `do_emplace` (`ordEmplaceFence`), later reads the value cell (plain, any
+order `ov'`).  Then `b` read the tag, the message of `vl` it reads is not older than the
+constructing write, and it is the constructed element `e` if the cell has been written once (which
+is what the SC theorems guarantee).  Everything else the two threads and all other threads do in
+between is arbitrary (`Mem.Ext`).  Weakening any of the four orders in the source breaks this
+obligation (`decide` on the generated constants). -/
+theorem swiss_publication_view (m : Mem L) (a b : Nat) (vl c : L) (ov ov' os of : Ord) (e tag : Nat)
+    (hos : os = ordStoreMain ∨ os = ordStoreMirror) (hof : of = ordFindFence ∨ of = ordEmplaceFence)
+    {m1 m2 m3 m4 m5 m6 : Mem L} {v ts' v' : Nat}
+    (h1 : (m.write a vl ov e).Ext m1)
+    (h2 : (m1.write a c os tag).Ext m2)
+    (h3 : m2.read b c ordGroupLoad (m1.len c) = some (m3, v))
+    (h4 : m3.Ext m4)
+    (h5 : (m4.fence b of).Ext m5)
+    (h6 : m5.read b vl ov' ts' = some (m6, v')) :
+    v = tag ∧ m.len vl ≤ ts' ∧ (m5.len vl = m.len vl + 1 → v' = e) :=
+  publication_store_fence m a b vl c ov ov' os ordGroupLoad of e tag
+    (by rcases hos with rfl | rfl <;> decide) (by rcases hof with rfl | rfl <;> decide) h1 h2 h3 h4 h5 h6
+
+/-- **set_node_publication_view.**  The winner `a` of a growth race writes a field or a control
+byte `nf` of the new `TableNode` (plain), later wins the CAS on `next` (`ordSetCasSucc`); a thread
+`b` that reads the CAS's message with the `next` load of `Set::emplace` (`ordSetEmplaceNextLoad`)
+or of `Set::find` (`ordSetFindHeadLoad`, `ordSetFindNextLoad`) and later reads `nf` (plain) cannot
+read anything older than the winner's write — in every execution of the view model. -/
+theorem set_node_publication_view (m : Mem L) (a b : Nat) (nf nx : L) (ov ov' ol : Ord) (x e d ts : Nat)
+    (hol : ol = ordSetEmplaceNextLoad ∨ ol = ordSetFindHeadLoad ∨ ol = ordSetFindNextLoad)
+    {m1 m2 m3 m4 m5 m6 : Mem L} {obs v ts' v' : Nat}
+    (h1 : (m.write a nf ov x).Ext m1)
+    (h2 : m1.cas a nx ordSetCasSucc ordSetCasFail e d ts = some (m2, true, obs))
+    (h3 : m2.Ext m3)
+    (h4 : m3.read b nx ol (m1.len nx) = some (m4, v))
+    (h5 : m4.Ext m5)
+    (h6 : m5.read b nf ov' ts' = some (m6, v')) :
+    v = d ∧ m.len nf ≤ ts' ∧ (m5.len nf = m.len nf + 1 → v' = x) :=
+  publication_cas_load m a b nf nx ov ov' ordSetCasSucc ordSetCasFail ol x e d ts (by decide)
+    (by rcases hol with rfl | rfl | rfl <;> decide) h1 h2 h3 h4 h5 h6
+
+/-- **set_node_publication_view_loser.**  The same for the thread that LOSES the growth race: its
+own CAS (`ordSetCasSucc` / failure order `ordSetCasFail`) fails on the winner's message, hands back
+the winner's node `d`, and everything the winner wrote into the node before its CAS is visible to
+the loser's later plain reads. -/
+theorem set_node_publication_view_loser (m : Mem L) (a b : Nat) (nf nx : L) (ov ov' : Ord)
+    (x e d ts e' d' : Nat) {m1 m2 m3 m4 m5 m6 : Mem L} {obs obs' ts' v' : Nat}
+    (h1 : (m.write a nf ov x).Ext m1)
+    (h2 : m1.cas a nx ordSetCasSucc ordSetCasFail e d ts = some (m2, true, obs))
+    (h3 : m2.Ext m3)
+    (h4 : m3.cas b nx ordSetCasSucc ordSetCasFail e' d' (m1.len nx) = some (m4, false, obs'))
+    (h5 : m4.Ext m5)
+    (h6 : m5.read b nf ov' ts' = some (m6, v')) :
+    obs' = d ∧ m.len nf ≤ ts' ∧ (m5.len nf = m.len nf + 1 → v' = x) :=
+  publication_cas_cas m a b nf nx ov ov' ordSetCasSucc ordSetCasFail ordSetCasSucc ordSetCasFail
+    x e d ts e' d' (by decide) (by decide) h1 h2 h3 h4 h5 h6
+
+end view
+
+/-! negative controls: concrete executions of the view model (locations: `false` = value cell / node
+field, `true` = control byte / `next`; thread 0 writes 7 and publishes, thread 1 reads) -/
+
+/-- what thread 1 gets when it reads the value cell at timestamp `tsVal` after having read the tag
+message and executed its fence; `none` = that read is not admissible -/
+def pubScenario (os of : Ord) (tsVal : Nat) : Option Nat :=
+  let m0 : Babylon.Core.MemView.Mem Bool := Babylon.Core.MemView.Mem.init (fun _ => 0)
+  let m1 := m0.write 0 false .rlx 7
+  let m2 := m1.write 0 true os 1
+  match m2.read 1 true ordGroupLoad 1 with
+  | none => none
+  | some (m3, _) => ((m3.fence 1 of).read 1 false .rlx tsVal).map (·.2)
+
+/-- with the orders of the source the stale (unconstructed) message is not readable, the constructed
+one is -/
+example : pubScenario ordStoreMain ordFindFence 0 = none ∧ pubScenario ordStoreMain ordFindFence 1 = some 7 ∧
+    pubScenario ordStoreMirror ordEmplaceFence 0 = none := by decide
+/-- negative control: a RELAXED tag store lets the reader see the unconstructed cell (value 0) -/
+example : pubScenario .rlx ordFindFence 0 = some 0 := by decide
+/-- negative control: without the acquire fence (a relaxed "fence" is no fence) likewise -/
+example : pubScenario ordStoreMain .rlx 0 = some 0 := by decide
+
+/-- growth: thread 0 writes a node field, wins the CAS on `next` (0 → 5) with order `so`; thread 1
+reads `next` with order `ol`, then the node field at timestamp `tsVal` -/
+def nodeScenario (so ol : Ord) (tsVal : Nat) : Option Nat :=
+  let m0 : Babylon.Core.MemView.Mem Bool := Babylon.Core.MemView.Mem.init (fun _ => 0)
+  let m1 := m0.write 0 false .rlx 7
+  match m1.cas 0 true so ordSetCasFail 0 5 0 with
+  | some (m2, true, _) =>
+    match m2.read 1 true ol 1 with
+    | none => none
+    | some (m3, _) => (m3.read 1 false .rlx tsVal).map (·.2)
+  | _ => none
+
+/-- the loser: thread 1's own CAS (0 → 9) fails on the winner's message with failure order `fo` -/
+def loserScenario (fo : Ord) (tsVal : Nat) : Option Nat :=
+  let m0 : Babylon.Core.MemView.Mem Bool := Babylon.Core.MemView.Mem.init (fun _ => 0)
+  let m1 := m0.write 0 false .rlx 7
+  match m1.cas 0 true ordSetCasSucc ordSetCasFail 0 5 0 with
+  | some (m2, true, _) =>
+    match m2.cas 1 true ordSetCasSucc fo 0 9 1 with
+    | some (m3, false, _) => (m3.read 1 false .rlx tsVal).map (·.2)
+    | _ => none
+  | _ => none
+
+example : nodeScenario ordSetCasSucc ordSetEmplaceNextLoad 0 = none ∧
+    nodeScenario ordSetCasSucc ordSetFindNextLoad 1 = some 7 ∧ loserScenario ordSetCasFail 0 = none ∧
+    loserScenario ordSetCasFail 1 = some 7 := by decide
+/-- negative control: a RELAXED growth CAS publishes nothing -/
+example : nodeScenario .rlx ordSetEmplaceNextLoad 0 = some 0 := by decide
+/-- negative control: a relaxed `next` load acquires nothing -/
+example : nodeScenario ordSetCasSucc .rlx 0 = some 0 := by decide
+/-- negative control (the seeded change "release / relaxed failure order"): the loser of the growth
+race may read the new node unpublished -/
+example : loserScenario .rlx 0 = some 0 := by decide
 
 /-! ### non-vacuity: concrete reachable states -/
 
